@@ -721,6 +721,17 @@ def C09(infos: List[EnumInfo], ctx: dict):
                         ok = len(ta) >= 2 and ta[0].split("::")[-1] == ge["name"] and ta[1].startswith("&")
                     elif co[0].get("method") and co[0].get("def") == "core::convert::Into::into":
                         ok = True
+            if not ok and f:
+                # any other shape (own match, helper, by-value From): every variant must map to the discriminant of the same name
+                try:
+                    vt = T.variant_match_tree(f, 0, T.group_fns(g))
+                    mapped = {}
+                    for vp_, body_, _n in vt.arms:
+                        c_ = H.ctor_of(body_)
+                        mapped.setdefault(vp_.variant, c_)
+                    ok = vt.wild is None and all((mapped.get(v_["name"]) is not None and mapped[v_["name"]].adt == ge["def"] and mapped[v_["name"]].variant == v_["name"]) for v_ in ev) and set(mapped) <= set(v_["name"] for v_ in ev)
+                except Unrecognised:
+                    pass
             if not ok:
                 out.append(Violation("C09", "discriminant() delegates to From<&Self>", "C09:into-discriminant-body", "discriminant() is %s" % (H.brief(f["body"]["tree"]) if f else None), where(info, D)))
         # requested derives + built-ins
@@ -880,7 +891,15 @@ def C10(infos: List[EnumInfo], ctx: dict):
                     return None, None
                 s_, t = H.tail_of_body(f["body"]["tree"])
                 if s_:
-                    raise Unrecognised("unexpected statements in " + fn_name, s_)
+                    # `let`s before the struct expression: substitute them (straight-line code only)
+                    import symeval as SE
+                    try:
+                        tr_ = SE.Builder(f, {}, {}).tree()
+                    except Unrecognised as e2:
+                        raise Unrecognised("unexpected statements in %s [decision-tree normaliser: %s]" % (fn_name, e2), s_)
+                    if not isinstance(tr_, SE.Leaf) or tr_.diverge:
+                        raise Unrecognised("unexpected statements in %s [decision-tree normaliser: the function branches]" % fn_name, s_)
+                    t = tr_.value
                 if unwrap:
                     co = H.call_of(t)
                     if not (co and co[0].get("def") == unwrap and len(co[1]) == 1):
@@ -971,11 +990,31 @@ def C10(infos: List[EnumInfo], ctx: dict):
                                 c2 = H.ctor_of(co[1][0])
                                 if c2 and c2.adt == tdef and sorted(n for n, _ in c2.payload) == sorted(fields):
                                     ok = all(H.is_local(e, binding_id=binds[n]) for n, e in c2.payload)
+                if not ok:
+                    try:
+                        ok = all_tree(f, fields, tdef)
+                    except Unrecognised:
+                        pass
                 rows += 1
                 if not ok:
                     out.append(Violation("C10", "all() is Some iff every slot is Some, each value staying in its slot", "C10:all", "all() is %s" % H.brief(t, 300), where(info, D)))
             # all_ok
-            f, c = struct_of("all_ok", unwrap=T.OK)
+            f_ok = methods.get("all_ok")
+            shape_ok = False
+            if f_ok is not None:
+                try:
+                    _f, c = struct_of("all_ok", unwrap=T.OK)
+                    shape_ok = c is not None and all(isinstance(H.strip(e), dict) and H.strip(e).get("k") == "try" for _n, e in c.payload)
+                except Unrecognised:
+                    shape_ok = False
+            if f_ok is not None and not shape_ok:
+                # any other shape: every path of the decision tree over "slot i holds Ok"
+                for prob in all_ok_tree(f_ok, order, tdef):
+                    out.append(Violation("C10", "all_ok() returns Ok(table of the payloads) when every slot is Ok and otherwise the first Err in declaration order", "C10:all_ok-%s" % prob[0], prob[1], where(info, D)))
+                rows += len(order)
+                c = None
+            else:
+                f, c = struct_of("all_ok", unwrap=T.OK)
             if c:
                 names_in_text_order = [n for n, _ in c.payload]
                 for n_, e in c.payload:
@@ -996,9 +1035,144 @@ def C10(infos: List[EnumInfo], ctx: dict):
     return out, cov
 
 
+def _slot_of_place(pk) -> Optional[str]:
+    # ('f', ('p', 0), name)
+    if isinstance(pk, (list, tuple)) and len(pk) == 3 and pk[0] == "f" and tuple(pk[1]) == ("p", 0):
+        return pk[2]
+    return None
+
+
+def _is_proj(e: Any, slot: str, ctor: str) -> bool:
+    e = H.strip(e)
+    return isinstance(e, dict) and e.get("k") == "proj" and e.get("ctor") == ctor and _slot_of_place(e.get("place")) == slot
+
+
+def all_tree(f: dict, fields: List[str], tdef: str) -> bool:
+    """all() of any shape: on every path of its decision tree over the atoms "slot holds Some", a Some(..) result requires
+    every slot to hold Some and carries each payload in its own slot; a None result requires some slot not to."""
+    import symeval as SE
+    tree = SE.Builder(f, {}, {}).tree()
+    for lits, leaf in SE.paths(tree):
+        if leaf.diverge:
+            return False
+        pos = set(_slot_of_place(a[1]) for a, pol in lits if a[0] == "is" and a[2] == "Some" and pol)
+        neg = set(_slot_of_place(a[1]) for a, pol in lits if a[0] == "is" and a[2] == "Some" and not pol)
+        if any(a[0] != "is" for a, _p in lits):
+            raise Unrecognised("all() branches on something other than its slots")
+        v = H.strip(leaf.value)
+        if isinstance(v, dict) and v.get("k") == "path" and v.get("def") == T.NONE:
+            if not neg:
+                return False
+            continue
+        co = H.call_of(v)
+        if not (co and co[0].get("def") == T.SOME and len(co[1]) == 1):
+            return False
+        c2 = H.ctor_of(co[1][0])
+        if not (c2 and c2.adt == tdef and sorted(n for n, _ in c2.payload) == sorted(fields)) or neg or pos != set(fields):
+            return False
+        if not all(_is_proj(e, n, "Some") for n, e in c2.payload):
+            return False
+    return True
+
+
+def all_ok_tree(f: dict, order: List[str], tdef: str) -> List[Tuple[str, str]]:
+    """Problems of an all_ok() of any shape (empty = it returns Ok(table of payloads) iff every slot is Ok, else the first Err in
+    declaration order), decided on every path of its decision tree over the atoms "slot holds Ok"."""
+    import symeval as SE
+    try:
+        tree = SE.Builder(f, {}, {}).tree()
+        ps = SE.paths(tree)
+    except Unrecognised as e:
+        return [("slot", "all_ok() is not understood: %s" % e.what)]
+    probs = []
+    for lits, leaf in ps:
+        if leaf.diverge or any(a[0] != "is" or a[2] != "Ok" for a, _p in lits):
+            return [("slot", "all_ok() branches on something other than its slots or does not return")]
+        pos = [_slot_of_place(a[1]) for a, pol in lits if pol]
+        neg = [_slot_of_place(a[1]) for a, pol in lits if not pol]
+        v = H.strip(leaf.value)
+        co = H.call_of(v)
+        if co and co[0].get("def") == T.OK and len(co[1]) == 1:
+            c2 = H.ctor_of(co[1][0])
+            if neg or set(pos) != set(order) or not (c2 and c2.adt == tdef and sorted(n for n, _ in c2.payload) == sorted(order)) or not all(_is_proj(e, n, "Ok") for n, e in c2.payload):
+                probs.append(("slot", "a path where %s hold Ok and %s do not returns %s" % (pos, neg, H.brief(v, 160))))
+            continue
+        if co and co[0].get("def") == T.ERR and len(co[1]) == 1:
+            a0 = H.strip(co[1][0])
+            # From::from(e) of the `?` desugaring is the identity here (same error type)
+            ci = H.call_of(a0)
+            if ci and ci[0].get("def") == "core::convert::From::from" and len(ci[1]) == 1:
+                a0 = H.strip(ci[1][0])
+            slot = _slot_of_place(a0.get("place")) if isinstance(a0, dict) and a0.get("k") == "proj" and a0.get("ctor") == "Err" else None
+            if slot is None or slot not in neg:
+                probs.append(("slot", "an Err path returns %s" % H.brief(v, 120)))
+                continue
+            i = order.index(slot) if slot in order else -1
+            if i < 0 or not set(order[:i]) <= set(pos):
+                probs.append(("order", "Err of slot %s is returned although %s have not been found Ok (declaration order %s)" % (slot, [x for x in order[:max(i, 0)] if x not in pos], order)))
+            continue
+        probs.append(("slot", "a path returns %s" % H.brief(v, 120)))
+    return probs
+
+
 # ------------------------------------------------------------------------------------------------
 # C13
 # ------------------------------------------------------------------------------------------------
+
+def predicate_truth(f: dict, variants: List[str], fns) -> Dict[str, bool]:
+    """variant -> value of a `fn(&self) -> bool` of any shape the normaliser understands (plus '' for a variant the
+    function does not name)."""
+    import symeval as SE
+    b, tree, _named = T._variant_tree(f, 0, fns)
+    out = {}
+    for w in variants + [""]:
+        leaf = SE.run(tree, {"variant": w or None})
+        if leaf.diverge:
+            raise Unrecognised("predicate does not return for %s" % w)
+        val = H.lit_value(leaf.value, "bool")
+        if val not in (True, False, "true", "false"):
+            raise Unrecognised("predicate value is not a boolean literal: " + H.brief(leaf.value, 60), leaf.value)
+        out[w] = val in (True, "true")
+    if out.pop(""):
+        raise Unrecognised("predicate is true for variants it does not name")
+    return out
+
+
+def try_as_tree(f: dict, v, variants: List[str], fns):
+    """'ok' | ('wrong', variant) | ('order', text): `try_as_*` of any shape the normaliser understands, decided on every variant."""
+    import symeval as SE
+    b, tree, _named = T._variant_tree(f, 0, fns)
+    some_for = []
+    is_none = lambda x: isinstance(H.strip(x), dict) and H.strip(x).get("k") == "path" and H.strip(x).get("def") == T.NONE
+    verdict = None
+    for w in variants + [""]:
+        leaf = SE.run(tree, {"variant": w or None})
+        if leaf.diverge:
+            raise Unrecognised("try_as does not return for %s" % w)
+        if is_none(leaf.value):
+            continue
+        co = H.call_of(leaf.value)
+        if not (co and co[0].get("def") == T.SOME and len(co[1]) == 1) or not w:
+            raise Unrecognised("try_as result is neither None nor Some(..): " + H.brief(leaf.value, 80), leaf.value)
+        some_for.append(w)
+        vp = T._vpat_for(leaf, w)
+        if vp.shape not in ("tuple", "unit") or vp.rest:
+            raise Unrecognised("try_as pattern does not bind every field positionally", vp.node)
+        ids = [(H.binding(x) or {}).get("id") for x in vp.subs]
+        r = H.strip(co[1][0])
+        elems = [r] if len(ids) == 1 else (r.get("elems") if isinstance(r, dict) and r.get("k") == "tup" else None)
+        if elems is None or len(elems) != len(ids) or None in ids:
+            raise Unrecognised("try_as payload is not the tuple of the pattern's bindings: " + H.brief(r, 80), r)
+        if not all(H.is_local(e, binding_id=i_) for e, i_ in zip(elems, ids)):
+            if sorted((H.strip(e) or {}).get("id", -1) for e in elems) == sorted(ids):
+                verdict = ("order", H.brief(r))
+            else:
+                raise Unrecognised("try_as payload is not the tuple of the pattern's bindings: " + H.brief(r, 80), r)
+    if some_for != [v.name]:
+        other = [w for w in some_for if w != v.name]
+        return ("wrong", other[0] if other else "no variant")
+    return verdict or "ok"
+
 
 def C13(infos: List[EnumInfo], ctx: dict):
     out: List[Violation] = []
@@ -1057,6 +1231,19 @@ def C13(infos: List[EnumInfo], ctx: dict):
                                     continue
                 except Unrecognised:
                     pass
+                if not ok:
+                    # any other shape: decide the predicate on every variant through the decision-tree normaliser
+                    try:
+                        truth = predicate_truth(f, [x.name for x in es.variants], T.group_fns(gi))
+                        yes = sorted(w for w, b_ in truth.items() if b_)
+                        if yes == [v.name]:
+                            ok = True
+                        else:
+                            out.append(Violation("C13", "is_x() is true exactly for the variant it is named after", "C13:is-wrong-variant", "%s is true for %s" % (nm, yes or "no variant"),
+                                                 where(info, "EnumIs", {"fn": nm, "tests": yes, "expected": v.name})))
+                            continue
+                    except Unrecognised:
+                        pass
                 if not ok:
                     out.append(Violation("C13", "is_x() is `match self { E::X{..} => true, _ => false }`", "C13:is-body", "%s is %s" % (nm, H.brief(f["body"]["tree"], 200)), where(info, "EnumIs", {"fn": nm})))
                 sg = f["sig"]
@@ -1132,6 +1319,18 @@ def C13(infos: List[EnumInfo], ctx: dict):
                                         continue
                     except Unrecognised:
                         pass
+                    if not ok and not wrong_variant:
+                        try:
+                            r_ = try_as_tree(f, v, [x.name for x in es.variants], T.group_fns(gt))
+                            if r_ == "ok":
+                                ok = True
+                            elif r_[0] == "wrong":
+                                wrong_variant = r_[1]
+                            elif r_[0] == "order":
+                                out.append(Violation("C13", "all fields are returned in order", "C13:try_as-field-order", "%s returns %s" % (nm, r_[1]), where(info, "EnumTryAs", {"fn": nm})))
+                                continue
+                        except Unrecognised:
+                            pass
                     if wrong_variant:
                         out.append(Violation("C13", "try_as_x returns Some exactly for variant x", "C13:try_as-wrong-variant", "%s matches %s" % (nm, wrong_variant), where(info, "EnumTryAs", {"fn": nm})))
                     elif not ok:
